@@ -79,6 +79,7 @@ let handle (cmd : string) (args : t list) : t option =
     let rn = node_of_sexp r in
     Some (L (List.map spair_sexp (sync_key (cfg_of c) rn (seq_items (node_of_sexp l)) (seq_items rn))))
   | "nodeeq", [a; b] -> Some (bs (node_eq (node_of_sexp a) (node_of_sexp b)))
+  | "valeq", [a; b] -> Some (bs (val_eq (node_of_sexp a) (node_of_sexp b)))
   | "report", [q; o; sm; L acts] ->
     let es = List.map (fun a -> { e_action = action_of a; e_path = []; e_loc = []; e_lhs = none_node; e_rhs = none_node }) acts in
     let pr = printed_entries (bool_of_sym q) (bool_of_sym o) (bool_of_sym sm) es in
